@@ -173,6 +173,10 @@ func SetSymmetricDifference(sets ...cty.Value) (cty.Value, error) {
 func setOperationReturnType(args []cty.Value) (ret cty.Type, err error) {
 	var etys []cty.Type
 	for _, arg := range args {
+		if arg.Type().Equals(cty.DynamicPseudoType) {
+			// an argument whose type isn't known yet: the element type can't be predicted
+			return cty.DynamicPseudoType, nil
+		}
 		ty := arg.Type().ElementType()
 
 		// Do not unify types for empty dynamic pseudo typed collections. These
